@@ -38,6 +38,8 @@ pub struct RunResult {
     pub injected_cpi_fired: u64,
     pub sim_seconds: u64,
     pub log_hash: u64,
+    /// violations listed in /verif/known_findings.json (they do not stop the run)
+    pub known_hits: Vec<(KnownFinding, Violation)>,
 }
 
 fn fnv(h: &mut u64, bytes: &[u8]) {
@@ -63,6 +65,7 @@ pub fn run_one(seed: u64, profile: Profile, thorough: bool, mk: MkMonitors, stop
     let (mut g, mut ledger) = Gen::new(seed, profile, thorough);
     let mut monitors = mk();
     let mut res = RunResult::default();
+    let known = load_known_findings();
     res.log_hash = 0xcbf29ce484222325;
     for m in monitors.iter_mut() {
         m.on_genesis(&ledger, &mut res.cov);
@@ -93,8 +96,13 @@ pub fn run_one(seed: u64, profile: Profile, thorough: bool, mk: MkMonitors, stop
         res.history.push(ev);
         idx += 1;
         if !v.is_empty() {
-            res.violations.extend(v);
-            if stop_on_violation {
+            for x in v {
+                match is_known(&known, &x) {
+                    Some(k) => res.known_hits.push((k, x)),
+                    None => res.violations.push(x),
+                }
+            }
+            if stop_on_violation && !res.violations.is_empty() {
                 break;
             }
         }
@@ -227,7 +235,8 @@ pub fn read_replay(path: &str) -> Option<ReplayDoc> {
 pub struct KnownFinding {
     pub property: String,
     pub class: String,
-    pub contains: String,
+    /// every one of these must occur in the violation's detail
+    pub contains: Vec<String>,
     pub what: String,
 }
 
@@ -246,7 +255,7 @@ pub fn load_known_findings() -> Vec<KnownFinding> {
                 .map(|f| KnownFinding {
                     property: f["property"].as_str().unwrap_or("").into(),
                     class: f["class"].as_str().unwrap_or("").into(),
-                    contains: f["detail_contains"].as_str().unwrap_or("").into(),
+                    contains: f["detail_contains"].as_array().map(|a| a.iter().filter_map(|x| x.as_str().map(|s| s.to_string())).collect()).unwrap_or_default(),
                     what: f["what"].as_str().unwrap_or("").into(),
                 })
                 .collect()
@@ -254,9 +263,9 @@ pub fn load_known_findings() -> Vec<KnownFinding> {
         .unwrap_or_default()
 }
 
-fn is_known(k: &[KnownFinding], v: &Violation) -> Option<KnownFinding> {
+pub fn is_known(k: &[KnownFinding], v: &Violation) -> Option<KnownFinding> {
     k.iter()
-        .find(|f| f.property == v.property && f.class == v.class && v.detail.contains(&f.contains))
+        .find(|f| f.property == v.property && f.class == v.class && !f.contains.is_empty() && f.contains.iter().all(|c| v.detail.contains(c.as_str())))
         .cloned()
 }
 
@@ -276,8 +285,9 @@ pub fn run_batch(spec: &CheckSpec, thorough: bool, base_seed: u64, runs_override
     let deadline_secs: u64 = secs_override.unwrap_or(if thorough { spec.thorough_secs } else { 600 });
     let next = Arc::new(AtomicU64::new(0));
     let stop = Arc::new(AtomicBool::new(false));
-    let agg: Arc<Mutex<(Coverage, BTreeMap<&'static str, u64>, u64, u64, u64, u64, Vec<(u64, RunResult)>)>> =
-        Arc::new(Mutex::new((Coverage::default(), BTreeMap::new(), 0, 0, 0, 0, Vec::new())));
+    #[allow(clippy::type_complexity)]
+    let agg: Arc<Mutex<(Coverage, BTreeMap<&'static str, u64>, u64, u64, u64, u64, Vec<(u64, RunResult)>, BTreeMap<String, (KnownFinding, u64)>)>> =
+        Arc::new(Mutex::new((Coverage::default(), BTreeMap::new(), 0, 0, 0, 0, Vec::new(), BTreeMap::new())));
     let profile = spec.profile;
     let mk = spec.mk;
     let extra = spec.extra;
@@ -294,6 +304,7 @@ pub fn run_batch(spec: &CheckSpec, thorough: bool, base_seed: u64, runs_override
                     let mut local_faults: BTreeMap<&'static str, u64> = BTreeMap::new();
                     let (mut ok, mut fail, mut runs, mut simsec) = (0u64, 0u64, 0u64, 0u64);
                     let mut bad: Vec<(u64, RunResult)> = Vec::new();
+                    let mut local_known: BTreeMap<String, (KnownFinding, u64)> = BTreeMap::new();
                     loop {
                         if stop.load(Ordering::Relaxed) {
                             break;
@@ -319,6 +330,9 @@ pub fn run_batch(spec: &CheckSpec, thorough: bool, base_seed: u64, runs_override
                             }
                         }
                         local_cov.merge(std::mem::take(&mut r.cov));
+                        for (k, _) in &r.known_hits {
+                            local_known.entry(k.what.clone()).or_insert((k.clone(), 0)).1 += 1;
+                        }
                         if !r.violations.is_empty() {
                             bad.push((seed, r));
                             if bad.len() >= 2 {
@@ -336,6 +350,9 @@ pub fn run_batch(spec: &CheckSpec, thorough: bool, base_seed: u64, runs_override
                     a.4 += runs;
                     a.5 += simsec;
                     a.6.extend(bad);
+                    for (w, (k, n)) in local_known {
+                        a.7.entry(w).or_insert((k, 0)).1 += n;
+                    }
                 })
                 .unwrap(),
         );
@@ -349,12 +366,12 @@ pub fn run_batch(spec: &CheckSpec, thorough: bool, base_seed: u64, runs_override
     let mut a = agg.lock().unwrap();
     let (cov, faults, ok, fail, runs, simsec) = (a.0.clone(), a.1.clone(), a.2, a.3, a.4, a.5);
     let mut bad = std::mem::take(&mut a.6);
+    let mut known_hits: BTreeMap<String, (KnownFinding, u64)> = std::mem::take(&mut a.7);
     drop(a);
     bad.sort_by_key(|(s, _)| *s);
     let known = load_known_findings();
     let mut exit = 0;
     let mut n_viol = 0;
-    let mut known_hits: BTreeMap<String, (KnownFinding, u64)> = BTreeMap::new();
     let mut reported: Vec<Value> = Vec::new();
     for (seed, r) in bad.iter().take(4) {
         let v = &r.violations[0];
@@ -426,6 +443,7 @@ pub fn run_batch(spec: &CheckSpec, thorough: bool, base_seed: u64, runs_override
             "threads": threads,
             "profile": profile.name(),
             "violations_reported": reported,
+            "known_findings_seen": known_hits.iter().map(|(w, (_, n))| json!({"what": w, "runs_or_hits": n})).collect::<Vec<_>>(),
         },
         "assumptions": spec.assumptions,
         "wall_s": wall,
